@@ -287,6 +287,7 @@ class Profile:
         weights=None,
         build_on=("obj", "glob"),
         any_callee=False,
+        rebind_dead_names=False,
     ):
         self.ops = tuple(ops)
         self.globs = tuple(globs)
@@ -306,6 +307,11 @@ class Profile:
         # TypeError at that opcode; a static decompiler cannot know): for checks that need no
         # reference VM
         self.any_callee = any_callee
+        # with unique_attr_names: a second module may reuse an attribute name once no global of
+        # that name is reachable from the stack or the memo any more (the decompile's later
+        # `from B import f` then rebinds a name nothing refers to; the shapes of KF-C03-1 all need a
+        # live earlier global).  Rebinding *to* a builtin is never allowed: builtins are not imported.
+        self.rebind_dead_names = rebind_dead_names
 
 
 FOCUS_OPS = (
@@ -467,9 +473,24 @@ class State:
         m = norm_module(module)
         name = name.split(".")[0]  # a qualified name binds (imports) its first component
         if self.names.get(name, m) != m:
+            if self.p.rebind_dead_names and m != "builtins" and not self._glob_live(name):
+                return True
             self._excl("KF-C03-1 attr-name-collision")
             return False
         return True
+
+    def _glob_live(self, name):
+        seen = set()
+
+        def walk(v):
+            if id(v) in seen:
+                return False
+            seen.add(id(v))
+            if v.k == "glob" and v.val is not None and v.val[1].split(".")[0] == name:
+                return True
+            return any(walk(c) for c in v.kids)
+
+        return any(walk(v) for v in self.st) or any(walk(v) for v in self.memo.values())
 
     def _callable(self, v):
         return v.k in ("glob", "obj") or (self.p.any_callee and v.k != "mark")
@@ -669,7 +690,10 @@ class State:
         return xs
 
     def _bind(self, module, name):
-        self.names.setdefault(name.split(".")[0], norm_module(module))
+        if self.p.rebind_dead_names:
+            self.names[name.split(".")[0]] = norm_module(module)
+        else:
+            self.names.setdefault(name.split(".")[0], norm_module(module))
 
     def _call(self, op, parts):
         for v in parts:
